@@ -189,3 +189,144 @@ func TestPropCommands(t *testing.T) {
 		}
 	})
 }
+
+// ---------------------------------------------------------------- directory arguments
+
+// A directory given as input stands for every sequence file below it, including
+// those reached through symbolic links (to files and to directories); other
+// files are ignored.  Every record of those files is output exactly once, the
+// records of one file in file order (the order between files is not specified).
+type dirCase struct {
+	Files  []fileSpec
+	Places []int // where file i lives: 0 root, 1 root/sub, 2 root/sub/deep, 3 outside reached by a directory link, 4 outside reached by a file link
+	Tool   string
+	MaxCPU int
+}
+
+func init() { evid.Reg("directory", checkDirectory) }
+
+func checkDirectory(c dirCase) error {
+	dir, err := os.MkdirTemp(run.WorkDir(), "c03dir")
+	if err != nil {
+		return nil
+	}
+	defer os.RemoveAll(dir)
+	root := filepath.Join(dir, "root")
+	linked := filepath.Join(dir, "elsewhere", "linked_dir")
+	single := filepath.Join(dir, "elsewhere", "single")
+	for _, d := range []string{filepath.Join(root, "sub", "deep"), linked, single} {
+		if os.MkdirAll(d, 0o755) != nil {
+			return nil
+		}
+	}
+	os.WriteFile(filepath.Join(root, "README.txt"), []byte("not a sequence file\n"), 0o644)
+	os.WriteFile(filepath.Join(root, "sub", "notes.md"), []byte(">looks like fasta\nacgt\n"), 0o644)
+	usedLinkDir := false
+	want := map[string][]string{} // file tag -> ids in order
+	for i, f := range c.Files {
+		data, recs := renderFile(i, f, false)
+		name := fmt.Sprintf("f%d.fasta", i)
+		var p string
+		switch c.Places[i] % 5 {
+		case 0:
+			p = filepath.Join(root, name)
+		case 1:
+			p = filepath.Join(root, "sub", name)
+		case 2:
+			p = filepath.Join(root, "sub", "deep", name)
+		case 3:
+			p = filepath.Join(linked, name)
+			usedLinkDir = true
+		case 4:
+			p = filepath.Join(single, name)
+			if os.Symlink(p, filepath.Join(root, "sub", "link_"+name)) != nil {
+				return nil
+			}
+		}
+		if os.WriteFile(p, data, 0o644) != nil {
+			return nil
+		}
+		for _, r := range recs {
+			want[fmt.Sprintf("f%d", i)] = append(want[fmt.Sprintf("f%d", i)], r.ID)
+		}
+	}
+	if usedLinkDir {
+		if os.Symlink(linked, filepath.Join(root, "link_to_dir")) != nil {
+			return nil
+		}
+	}
+	args := []string{}
+	if c.MaxCPU > 0 {
+		args = append(args, "--max-cpu", strconv.Itoa(c.MaxCPU))
+	}
+	if c.Tool == "obigrep" {
+		args = append(args, "-l", "1")
+	}
+	args = append(args, root)
+	res := run.Cmd(run.Opt{Timeout: 90 * time.Second}, c.Tool, args...)
+	if res.Inconclusive() {
+		evid.Class("inconclusive_run", 1)
+		return nil
+	}
+	total := 0
+	for _, ids := range want {
+		total += len(ids)
+	}
+	if res.Exit != 0 {
+		if total == 0 {
+			return nil // nothing to read below the directory: refusing is fine
+		}
+		return fmt.Errorf("%s %s (directory argument) exits %d: %s", c.Tool, root, res.Exit, tail(res.Stderr))
+	}
+	got, err := ref.ParseFasta(res.Stdout)
+	if err != nil {
+		return fmt.Errorf("%s on a directory: output is not well formed: %v", c.Tool, err)
+	}
+	seen := map[string][]string{}
+	for _, r := range got {
+		tag := r.ID
+		if i := strings.IndexByte(tag, '_'); i > 0 {
+			tag = tag[:i]
+		}
+		seen[tag] = append(seen[tag], r.ID)
+	}
+	for tag, ids := range want {
+		if len(seen[tag]) != len(ids) {
+			return fmt.Errorf("%s %s: file %s.fasta (place %v) contributes %d records to the output, it holds %d (files found: %d records of %d in total)", c.Tool, root, tag, c.Places, len(seen[tag]), len(ids), len(got), total)
+		}
+		for i := range ids {
+			if seen[tag][i] != ids[i] {
+				return fmt.Errorf("%s %s: records of %s.fasta are out of order: rank %d is %s, expected %s", c.Tool, root, tag, i, seen[tag][i], ids[i])
+			}
+		}
+	}
+	if len(got) != total {
+		return fmt.Errorf("%s %s: %d records on stdout, the sequence files below the directory hold %d", c.Tool, root, len(got), total)
+	}
+	return nil
+}
+
+func TestPropDirectoryInputs(t *testing.T) {
+	rapid.Check(t, func(rt *rapid.T) {
+		var c dirCase
+		c.Tool = rapid.SampledFrom([]string{"obiconvert", "obigrep"}).Draw(rt, "tool")
+		n := rapid.IntRange(1, 5).Draw(rt, "nfiles")
+		for i := 0; i < n; i++ {
+			c.Files = append(c.Files, fileSpec{N: rapid.IntRange(1, 12).Draw(rt, "nrec"), MinLen: rapid.IntRange(5, 40).Draw(rt, "minlen"), Spread: rapid.IntRange(1, 30).Draw(rt, "spread")})
+			c.Places = append(c.Places, rapid.IntRange(0, 4).Draw(rt, "place"))
+		}
+		c.MaxCPU = rapid.SampledFrom([]int{0, 1, 4}).Draw(rt, "maxcpu")
+		links := false
+		for _, p := range c.Places {
+			links = links || p >= 3
+		}
+		cl := []string{"directory_argument"}
+		if links {
+			cl = append(cl, "reached_through_symlink")
+		}
+		evid.Eval("directory", evid.Hash(fmt.Sprintf("%+v", c)), links && n >= 2, c, cl...)
+		if err := checkDirectory(c); err != nil {
+			evid.Fail(rt, "directory", c, err)
+		}
+	})
+}
